@@ -310,8 +310,18 @@ func (k *wk) wanted(name string) bool {
 	if k.only == "" || name == k.only {
 		return true
 	}
-	return strings.HasPrefix(name, "open/") || name == "seqscan" || strings.HasPrefix(name, "makereader/") || name == "close" ||
-		name == "pages" || name == "seq/pages" || (name == "page" && (k.only == "process" || k.only == "pagefonts"))
+	switch {
+	case strings.HasPrefix(name, "open/"), name == "seqscan", strings.HasPrefix(name, "makereader/"), name == "close",
+		name == "get", name == "seq/get", name == "pages", name == "seq/pages":
+		return true
+	case name == "page" || name == "pagefonts":
+		return k.only == "process" || k.only == "pagefonts" || k.only == "font" || k.only == "fontprog" || k.only == "glyphnames"
+	case name == "font":
+		return k.only == "fontprog" || k.only == "glyphnames"
+	case name == "names":
+		return k.only == "nametree"
+	}
+	return false
 }
 
 // measure executes f and fills in the record.
